@@ -4139,6 +4139,16 @@ def lib_astype(ev, a, k, n, mod):
     """x.astype(dtype): identity for a floating dtype; truncation toward zero for an integer dtype; anything else unmodelled"""
     x = a[0]
     dt = a[1] if len(a) > 1 else k.get("dtype")
+    if isinstance(dt, CommonDtypeV):
+        if any(x is y for y in dt.arrays):
+            if not dt.floating and maybe_integer_typed(x):
+                raise ev.err("astype to the common type of integer arrays", n, mod)
+            return x            # the common type of a set of arrays that includes this one holds every value of it
+        e = RaisedV("InputAssumption", ev.here(n, mod))
+        e.expected = "a cast to a type that holds the array's own values (the common type of ALL the arrays involved)"
+        e.detail = ("an array is cast to the element type of OTHER arrays (numpy.result_type of them): when this one is complex and those are real its imaginary parts are discarded "
+                    "(numpy only warns), when it is floating and those are integer its values are truncated")
+        raise e
     name = dt if isinstance(dt, str) else getattr(dt, "name", None)
     name = (name or "").replace("builtins.", "").replace("numpy.", "")
     if name in ("float", "float64", "double", "float_", "longdouble", "f8", "d", "complex", "complex128"):
@@ -4544,9 +4554,21 @@ def lib_operator(opcls, nargs=2, compare=False):
     return f
 
 
+class CommonDtypeV:
+    """numpy.result_type(<arrays>, <scalars>): the common element type of THESE arrays (real or complex, whatever they are) with the scalars"""
+
+    def __init__(self, arrays, floating):
+        self.arrays, self.floating = list(arrays), floating
+
+
 def lib_result_type(ev, a, k, n, mod):
     if all(_float_dtype(x) or (is_sym(x)) for x in a):
         return LibV("numpy.float64")
+    arrays = [x for x in a if isinstance(x, ArrV)]
+    rest = [x for x in a if not isinstance(x, ArrV)]
+    if arrays and all(_float_dtype(x) or (is_sym(x) and x.is_number) or isinstance(x, (int, float)) for x in rest):
+        literal_float = isinstance(n, ast.Call) and any(isinstance(x_, ast.Constant) and isinstance(x_.value, (float, complex)) for x_ in n.args)      # 1.0 folds to the integer 1: the literal tells
+        return CommonDtypeV(arrays, literal_float or any((is_sym(x) and not x.is_Integer) or isinstance(x, float) or _float_dtype(x) for x in rest))
     raise ev.err("numpy.result_type of non-floating types", n, mod)
 
 
